@@ -1,6 +1,7 @@
 //! Registry: which machinery decides which property at which tier.
 use crate::engine::{self, Check, Ctx, Report, Verdict};
 use crate::known;
+use crate::props_dynamic as pd;
 use crate::props_static as ps;
 use serde_json::Value;
 
@@ -12,8 +13,12 @@ pub struct Plan {
 
 pub fn plans(id: &str) -> Vec<Plan> {
     match id {
+        "C01" => vec![Plan { check: Box::new(pd::C01 { focus: pd::Focus::General, id: "C01" }), quick: 6_000, thorough: 300_000 }],
         "C02" => vec![Plan { check: Box::new(ps::C02), quick: 30_000, thorough: 1_500_000 }],
-        "C03" => vec![Plan { check: Box::new(ps::C03Static), quick: 30_000, thorough: 1_000_000 }],
+        "C03" => vec![
+            Plan { check: Box::new(ps::C03Static), quick: 30_000, thorough: 1_000_000 },
+            Plan { check: Box::new(pd::C03Dynamic), quick: 6_000, thorough: 200_000 },
+        ],
         "C04" => vec![Plan { check: Box::new(ps::C04), quick: 30_000, thorough: 1_500_000 }],
         "C05" => vec![Plan { check: Box::new(ps::C05Static), quick: 20_000, thorough: 1_000_000 }],
         _ => vec![],
@@ -63,6 +68,8 @@ pub fn run(id: &str, tier: &str) -> i32 {
         return 2;
     }
     let mut report = Report::new(plans[0].check.as_ref(), tier, seed);
+    report.rule = plans.iter().map(|p| p.check.rule()).collect::<Vec<_>>().join(" || ");
+    report.assumptions = plans.iter().flat_map(|p| p.check.assumptions()).collect();
     // 1. open known findings: replay witnesses
     let mut ctx = Ctx { thread: 0, node: None };
     for f in known::open_findings(id) {
@@ -106,7 +113,11 @@ pub fn run(id: &str, tier: &str) -> i32 {
         }
     }
     // 3. generated cases
+    let only: Option<usize> = std::env::var("VERIF_PLAN").ok().and_then(|s| s.parse().ok());
     for (i, plan) in plans.iter().enumerate() {
+        if only.map(|o| o != i).unwrap_or(false) {
+            continue;
+        }
         let n = if tier == "thorough" { plan.thorough } else { plan.quick };
         let n = std::env::var("VERIF_CASES").ok().and_then(|s| s.parse().ok()).unwrap_or(n);
         let r = engine::run_generated(plan.check.as_ref(), n, seed.wrapping_add(i as u64 * 101), threads);
